@@ -16,15 +16,15 @@ configuration read from the source has comma-ok assertions and the two nil guard
 left); termination of `(*Schema).validate` on every schema graph (`validate_total`); termination of
 `InternalizeRefs` on every object graph (`internalize_total`, the call graph of its unguarded functions is
 acyclic: `deref_cycles_guarded`).
-What stays partial: `visitJSON` through compositions, `(*Header).Validate` through the encodings of its
-content and `MarshalJSON` of an internalized document have no visited set (findings CompositionCycle,
-HeaderCycle — new with 78418b3 + cbb0d05 — and CallbackCycle — changed by 1c81ad5: InternalizeRefs
-returns, the serialisation after it does not; `descend_total_partial` under `Ranked`, witness
-`witness_unguarded_cycle`); `InternalizeRefs` panics in `DefaultRefNameResolver` at a reference the loader
-left without location (findings Unresolved / UnwalkedRef: `addToSpec_partial` under `Located`, witnesses
-`witness_unresolved_pathless`, `witness_name_resolver_panics`). Each open finding has a whole document on
-which the model's outcome differs from the spec's inside exactly its class (`witness_documents`), each
-repaired one a whole document on which they agree (`regression_documents`) — evaluated by the kernel.
+What stays partial: `visitJSON` through compositions and `MarshalJSON` of an internalized document have no
+visited set (findings CompositionCycle and CallbackCycle — the latter left by 1c81ad5: InternalizeRefs returns,
+the serialisation after it does not; `descend_total_partial` under `Ranked`, witness `witness_unguarded_cycle`).
+Repaired in the later rounds and now at full strength: the name-resolver calls of InternalizeRefs never panic
+(`load_valued_pathed`, `addToSpec_total`, `doc_internalize_no_panic`; former findings Unresolved / UnwalkedRef,
+05c5875 + 3c3716e + 7245059), `(*Header).Validate` keeps a stack (former finding HeaderCycle, 4c7d612). Each open
+finding has a whole document on which the model's outcome differs from the spec's inside exactly its class
+(`witness_documents`), each repaired one a whole document on which they agree (`regression_documents`) and on
+which the model of the code before the repair fails (`old_code_panics_on_them`, `round2_code_failed_on_them`).
 -/
 import KinModel.LoadSafety
 import KinModel.Lemmas.C20Descent
@@ -90,8 +90,9 @@ theorem resolve_no_panic (cfg : Cfg) (hc : cfg.assertsChecked) (w : World) (hn :
     token, `c.Value != nil` before `c.Value.AdditionalProperties` (a regenerated-table obligation) -/
 theorem code_cfg_checked :
     LoadDoc.codeCfg.assertsChecked ∧ LoadDoc.codeCfg.nilChecked = true ∧ LoadDoc.codeCfg.apGuarded = true ∧
-    LoadDoc.codeCfg.keyedByKind = true := by
-  refine ⟨?_, by decide, by decide, by decide⟩
+    LoadDoc.codeCfg.keyedByKind = true ∧ LoadDoc.codeCfg.swallowOnlyEmpty = true ∧
+    LoadDoc.codeCfg.internValueGuard = true ∧ LoadDoc.codeCfg.headerStack = true := by
+  refine ⟨?_, by decide, by decide, by decide, by decide +kernel, by decide +kernel, by decide⟩
   intro k
   cases k <;> decide
 
@@ -120,9 +121,18 @@ theorem doc_load_normal_or_fuel (ds : LoadDoc.Docs) :
     obligations protect against (the same inputs under the configuration of the code before the repair) -/
 
 /-- the code after a04fe6c and 25200f7, before 7245059 (in-progress set keyed by the text alone) -/
-def cfgChecked : Cfg := { assertChecked := fun _ => true, nilChecked := true, apGuarded := true, keyedByKind := false }
+def cfgChecked : Cfg where
+  assertChecked := fun _ => true
+  nilChecked := true
+  apGuarded := true
+  keyedByKind := false
+  swallowOnlyEmpty := false
+  internValueGuard := false
+  headerStack := false
 /-- the code after 7245059 -/
-def cfgKeyed : Cfg := { assertChecked := fun _ => true, nilChecked := true, apGuarded := true, keyedByKind := true }
+def cfgKeyed : Cfg := { cfgChecked with keyedByKind := true }
+/-- the code after 3c3716e, 05c5875 and 4c7d612 -/
+def cfgNow : Cfg := { cfgKeyed with swallowOnlyEmpty := true, internValueGuard := true, headerStack := true }
 
 /-- former finding #12 / F-C20-1 (KindClash): `/a: {$ref: #/paths/~1b}`,
     `/b: {get: {responses: {200: {$ref: #/paths/~1b}}}}` — text 7 is in progress for the path-item resolver
@@ -397,55 +407,86 @@ theorem descend_example :
     · subst h1; simp at hs
     · simp [h0, h1] at hc
 
-/-! ## `InternalizeRefs` does not panic — partial (findings Unresolved, UnwalkedRef) -/
+/-! ## `InternalizeRefs` does not panic — full strength since 05c5875 (findings Unresolved, UnwalkedRef repaired) -/
 
 section Internalize
 open KinModel.LoadDoc
 
-/-- the wrapper at (doc, h) has a location (`refPath`) -/
-def Located (st : St) (doc h : Nat) : Prop := st.pathed.contains (nodeId doc h) = true
+/-- the loader's invariant: a wrapper that has a value has a location (`refPath`) — `component.Value = …` is
+    always followed by `setRefPath`, a callback sets both, `setPathRef(cursor)` only adds locations -/
+theorem load_valued_pathed (cfg : Cfg) (w : World) (fuel : Nat) (roots : List Node) (st : St)
+    (h : load cfg w fuel roots = .ok st) : ValuedPathed st := by
+  unfold load at h
+  have := stepKids_st (resolve cfg w fuel) Carries (fun _ x => x) (fun _ _ _ f g x => g (f x)) roots St.init st
+    (fun k _ s s' hk => resolve_vp cfg w fuel k s s' hk) (by simp [h, Res.st?])
+  exact this (by intro i hi; simp [St.init] at hi)
 
-/-- Full statement `∀ st doc h j pe, ∃ b, addToSpec st doc h j pe = .ok b` is false (witness below).
-    `DefaultRefNameResolver` is reached through `add<Kind>ToSpec` only, and it panics only at a wrapper without
-    location: wherever the loader left a location the call returns. -/
-theorem addToSpec_partial (st : St) (doc h : Nat) (j : JV) (pe : Bool) (hl : Located st doc h) :
-    ∃ b, addToSpec st doc h j pe = .ok b := by
+/-- `add<Kind>ToSpec` hands a wrapper to `DefaultRefNameResolver` (which panics when `RefPath() == nil`) only
+    when it has a value (05c5875), and a wrapper with a value has a location: the call returns for every
+    wrapper, every text and every `parentIsExternal` -/
+theorem addToSpec_total (cfg : Cfg) (hg : cfg.internValueGuard = true) (st : St) (hv : ValuedPathed st)
+    (doc h : Nat) (j : JV) (pe : Bool) : ∃ b, addToSpec cfg st doc h j pe = .ok b := by
   unfold addToSpec
-  unfold Located at hl
   split
   · exact ⟨false, rfl⟩
-  · simp only [hl, if_true]
-    split
-    · exact ⟨true, rfl⟩
-    · exact ⟨false, rfl⟩
+  · simp only [hg, Bool.true_and]
+    by_cases hval : st.value.contains (nodeId doc h) = true
+    · have hp : st.pathed.contains (nodeId doc h) = true := by
+        simp only [List.contains_iff_mem] at hval ⊢
+        exact hv _ hval
+      simp only [hval, Bool.not_true, Bool.false_eq_true, if_false, hp, if_true]
+      split
+      · exact ⟨true, rfl⟩
+      · exact ⟨false, rfl⟩
+    · simp only [Bool.not_eq_true] at hval
+      simp only [hval, Bool.not_false, if_true]
+      exact ⟨false, rfl⟩
 
-/-- finding Unresolved (F-C20-5, what is left of it): `T: {$ref: "#"}` — the text resolves to the empty
-    extension map, re-decoded into an empty wrapper: `errMUSTSchema`, swallowed BEFORE `setRefPath`; the load
-    succeeds, `T` has neither value nor location and the text stays in `visitedRefs` -/
+/-- for EVERY parsed document: whatever state a successful load of the model ends in, no `add<Kind>ToSpec`
+    call of InternalizeRefs panics -/
+theorem doc_internalize_no_panic (ds : Docs) (st : St) (h : (build codeCfg ds).load = .ok st)
+    (doc hh : Nat) (j : JV) (pe : Bool) : ∃ b, addToSpec codeCfg st doc hh j pe = .ok b :=
+  addToSpec_total codeCfg code_cfg_checked.2.2.2.2.2.1 st
+    (load_valued_pathed codeCfg _ loadFuel _ st (by unfold Built.load at h; exact h)) doc hh j pe
+
+/-- former finding Unresolved (F-C20-5): `T: {$ref: "#"}` — the text resolves to the empty extension map,
+    re-decoded into an empty wrapper: `errMUSTSchema`, swallowed BEFORE `setRefPath`; the load succeeds, `T` has
+    neither value nor location (and the key stays in `visitedRefs`) — which 05c5875 made harmless -/
 def wHash : World where
   texts := [5]
   target := fun _ t _ => if t = 5 then .raw (.mk 8 0 .schema none true []) else .err
 
-theorem witness_unresolved_pathless :
-    (match load cfgChecked wHash 10 [.mk 2 0 .schema (some 5) false []] with
-     | .ok st => !st.value.contains 2 && !st.pathed.contains 2 && st.inprog.contains (none, 5)
+theorem unresolved_pathless_still_loads :
+    (match load cfgNow wHash 10 [.mk 2 0 .schema (some 5) false []] with
+     | .ok st => !st.value.contains 2 && !st.pathed.contains 2 && st.inprog.contains (some .schema, 5)
      | _ => false) = true := by
   decide
 
+/-- 3c3716e: the sentinel raised by a null member BELOW the re-decoded target (`B: {$ref: '#/x-z'}`,
+    `x-z: {properties: {p: null}}`) is no longer swallowed: the load fails; before, `B` was left unresolved -/
+def wSwallow : World where
+  texts := [5]
+  target := fun _ t _ => if t = 5 then .raw (.mk 8 0 .schema none false [.mk 10 0 .schema none true []]) else .err
+
+theorem regression_swallow_only_empty :
+    load cfgNow wSwallow 10 [.mk 2 0 .schema (some 5) false []] = .errMust .schema ⟨[], [], [(some .schema, 5)], []⟩ ∧
+    (match load cfgKeyed wSwallow 10 [.mk 2 0 .schema (some 5) false []] with | .ok st => !st.value.contains 2 | _ => false) = true := by
+  decide
+
 set_option maxRecDepth 100000 in
-/-- … and `addSchemaToSpec` hands such a wrapper to the name resolver when its text does not start with
-    `#/components/` (or its parent is external): the model's outcome is the panic, the spec demands a return -/
-theorem witness_name_resolver_panics :
-    (match addToSpec St.init 0 7 (.obj [("$ref", .str "#")]) false with | .error _ => true | .ok _ => false) = true ∧
-    (match addToSpec St.init 0 7 (.obj [("$ref", .str "#/components/parameters/P")]) true with | .error _ => true | .ok _ => false) = true ∧
-    (match addToSpec St.init 0 7 (.obj [("$ref", .str "#/components/parameters/P")]) false with | .error _ => false | .ok _ => true) = true ∧
-    ¬ Located St.init 0 7 := by
-  refine ⟨by decide +kernel, by decide +kernel, by decide +kernel, by simp [Located, St.init]⟩
+/-- the name resolver was reached with such a wrapper before 05c5875 (the model's outcome was the panic); with the
+    value test of the code as it is now the call returns -/
+theorem regression_name_resolver :
+    (match addToSpec oldCfg St.init 0 7 (.obj [("$ref", .str "#")]) false with | .error _ => true | .ok _ => false) = true ∧
+    (match addToSpec oldCfg St.init 0 7 (.obj [("$ref", .str "#/components/parameters/P")]) true with | .error _ => true | .ok _ => false) = true ∧
+    (match addToSpec codeCfg St.init 0 7 (.obj [("$ref", .str "#")]) false with | .error _ => false | .ok b => !b) = true ∧
+    (match addToSpec codeCfg St.init 0 7 (.obj [("$ref", .str "#/components/parameters/P")]) true with | .error _ => false | .ok b => !b) = true := by
+  refine ⟨by decide +kernel, by decide +kernel, by decide +kernel, by decide +kernel⟩
 
 def jRefAndContent : JV := .obj [("$ref", .str "#/paths/~1b"), ("get", .obj [("parameters", .arr [.obj [("$ref", .str "#/components/parameters/P")]])])]
 
 set_option maxRecDepth 100000 in
-/-- finding UnwalkedRef (F-C20-11, what is left of it): a path item with `$ref` AND content of its own —
+/-- former finding UnwalkedRef (F-C20-11): a path item with `$ref` AND content of its own —
     `resolvePathItemRef` returns at `!pathItem.isEmpty()`, the walk gives it no children, so the parameter
     reference below it is never resolved, while `derefPaths` does descend into it with `pathIsExternal` -/
 theorem witness_unwalked_path_item :
@@ -498,33 +539,6 @@ def dPathItemRefs : JV := .obj [("paths", .obj [
 def dMix : JV := .obj [("components", .obj [("responses", .obj [("R", .obj [("$ref", .str "#/x-r")])])]), ("paths", .obj []),
   ("x-r", .obj [("description", .str "d"), ("headers", .obj [("h", .obj [("$ref", .str "#/x-r")])])])]
 
-set_option maxRecDepth 1000000 in
-/-- the repaired findings: on every former witness the model's outcome is the spec's (`[]`: every operation
-    returns normally); what the load returns is stated next to it -/
-theorem regression_documents :
-    (outcome codeCfg (mkDs dKindClash)).abnormal = specAbnormal ∧ (outcome codeCfg (mkDs dKindClash)).load = .err ∧
-    (outcome codeCfg dsNilTarget).abnormal = specAbnormal ∧ (outcome codeCfg dsNilTarget).load = .err ∧
-    (outcome codeCfg dsDrillNil).abnormal = specAbnormal ∧ (outcome codeCfg dsDrillNil).load = .err ∧
-    (outcome codeCfg (mkDs dEncHeader)).abnormal = specAbnormal ∧ isOk (outcome codeCfg (mkDs dEncHeader)).load = true ∧
-    (outcome codeCfg (mkDs docNullMember true)).abnormal = specAbnormal ∧
-    (outcome codeCfg (mkDs dNullExample)).abnormal = specAbnormal ∧ (outcome codeCfg (mkDs dNullExample)).load.normal = true ∧
-    (outcome codeCfg (mkDs dNullMembers)).abnormal = specAbnormal ∧
-    (outcome codeCfg (mkDs dCallbackCycle)).abnormal = specAbnormal ∧ isOk (outcome codeCfg (mkDs dCallbackCycle)).load = true ∧
-    (outcome codeCfg (mkDs dCompLinks)).abnormal = specAbnormal ∧ isOk (outcome codeCfg (mkDs dCompLinks)).load = true ∧
-    (outcome codeCfg (mkDs dEmptyCycle)).abnormal = specAbnormal ∧
-    (outcome codeCfg (mkDs dPathItemRefs)).abnormal = specAbnormal ∧ isOk (outcome codeCfg (mkDs dPathItemRefs)).load = true ∧
-    (outcome codeCfg (mkDs dMix)).abnormal = specAbnormal ∧ isOk (outcome codeCfg (mkDs dMix)).load = true := by
-  decide +kernel
-
-set_option maxRecDepth 1000000 in
-/-- the same documents under the configuration of the code before a04fe6c / 25200f7: the loader model panics —
-    what the table obligations `asserts_comma_ok` and `code_cfg_checked` protect against -/
-theorem old_code_panics_on_them :
-    (match (outcome oldCfg (mkDs dKindClash)).load with | .panic .assertKind => true | _ => false) = true ∧
-    (match (outcome oldCfg dsNilTarget).load with | .panic .typedNil => true | _ => false) = true ∧
-    (match (outcome oldCfg dsDrillNil).load with | .panic .drill => true | _ => false) = true := by
-  decide +kernel
-
 /-- finding Unresolved: `T: {$ref: "#"}` (corpus f05_ref_hash) -/
 def dHash : JV := .obj [("components", .obj [("schemas", .obj [("T", .obj [("$ref", .str "#")])])]), ("paths", .obj [])]
 /-- finding Unresolved: a reference into an extension member whose sub-schema is null — the sentinel is swallowed
@@ -553,21 +567,57 @@ def dHeaderCycle : JV := .obj [("openapi", .str "3.0.0"), ("components", .obj [(
   ("multipart/form-data", .obj [("encoding", .obj [("f", .obj [("headers", .obj [("X", .obj [("$ref", .str "#/components/headers/H")])])])])])])])])]), ("paths", .obj [])]
 
 set_option maxRecDepth 1000000 in
+/-- the repaired findings: on every former witness the model's outcome is the spec's (`[]`: every operation
+    returns normally); what the load returns is stated next to it -/
+theorem regression_documents :
+    (outcome codeCfg (mkDs dKindClash)).abnormal = specAbnormal ∧ (outcome codeCfg (mkDs dKindClash)).load = .err ∧
+    (outcome codeCfg dsNilTarget).abnormal = specAbnormal ∧ (outcome codeCfg dsNilTarget).load = .err ∧
+    (outcome codeCfg dsDrillNil).abnormal = specAbnormal ∧ (outcome codeCfg dsDrillNil).load = .err ∧
+    (outcome codeCfg (mkDs dEncHeader)).abnormal = specAbnormal ∧ isOk (outcome codeCfg (mkDs dEncHeader)).load = true ∧
+    (outcome codeCfg (mkDs docNullMember true)).abnormal = specAbnormal ∧
+    (outcome codeCfg (mkDs dNullExample)).abnormal = specAbnormal ∧ (outcome codeCfg (mkDs dNullExample)).load.normal = true ∧
+    (outcome codeCfg (mkDs dNullMembers)).abnormal = specAbnormal ∧
+    (outcome codeCfg (mkDs dCallbackCycle)).abnormal = specAbnormal ∧ isOk (outcome codeCfg (mkDs dCallbackCycle)).load = true ∧
+    (outcome codeCfg (mkDs dCompLinks)).abnormal = specAbnormal ∧ isOk (outcome codeCfg (mkDs dCompLinks)).load = true ∧
+    (outcome codeCfg (mkDs dEmptyCycle)).abnormal = specAbnormal ∧
+    (outcome codeCfg (mkDs dPathItemRefs)).abnormal = specAbnormal ∧ isOk (outcome codeCfg (mkDs dPathItemRefs)).load = true ∧
+    (outcome codeCfg (mkDs dMix)).abnormal = specAbnormal ∧ isOk (outcome codeCfg (mkDs dMix)).load = true ∧
+    (outcome codeCfg (mkDs dHash)).abnormal = specAbnormal ∧ isOk (outcome codeCfg (mkDs dHash)).load = true ∧
+    (outcome codeCfg (mkDs dSwallow)).abnormal = specAbnormal ∧ (outcome codeCfg (mkDs dSwallow)).load.normal = true ∧ isOk (outcome codeCfg (mkDs dSwallow)).load = false ∧
+    (outcome codeCfg (mkDs dRefAndContent)).abnormal = specAbnormal ∧ isOk (outcome codeCfg (mkDs dRefAndContent)).load = true ∧
+    (outcome codeCfg (mkDs dHeaderCycle)).abnormal = specAbnormal ∧ isOk (outcome codeCfg (mkDs dHeaderCycle)).load = true := by
+  decide +kernel
+
+set_option maxRecDepth 1000000 in
+/-- the same documents under the configuration of the code before a04fe6c / 25200f7: the loader model panics —
+    what the table obligations `asserts_comma_ok` and `code_cfg_checked` protect against -/
+theorem old_code_panics_on_them :
+    (match (outcome oldCfg (mkDs dKindClash)).load with | .panic .assertKind => true | _ => false) = true ∧
+    (match (outcome oldCfg dsNilTarget).load with | .panic .typedNil => true | _ => false) = true ∧
+    (match (outcome oldCfg dsDrillNil).load with | .panic .drill => true | _ => false) = true := by
+  decide +kernel
+
+set_option maxRecDepth 1000000 in
 /-- the open findings: the load succeeds, the model's outcome is not the spec's, and exactly the class of the
     finding holds -/
 theorem witness_documents :
-    isOk (outcome codeCfg (mkDs dHash)).load = true ∧
-    (outcome codeCfg (mkDs dHash)).abnormal = ["post"] ∧ (outcome codeCfg (mkDs dHash)).excl = ["Unresolved"] ∧
-    isOk (outcome codeCfg (mkDs dSwallow)).load = true ∧
-    (outcome codeCfg (mkDs dSwallow)).abnormal = ["post"] ∧ (outcome codeCfg (mkDs dSwallow)).excl = ["Unresolved"] ∧
-    isOk (outcome codeCfg (mkDs dRefAndContent)).load = true ∧
-    (outcome codeCfg (mkDs dRefAndContent)).abnormal = ["post"] ∧ (outcome codeCfg (mkDs dRefAndContent)).excl = ["UnwalkedRef"] ∧
     (outcome codeCfg (mkDs dComposition)).abnormal = ["crash:visit"] ∧ (outcome codeCfg (mkDs dComposition)).excl = ["CompositionCycle"] ∧
     isOk (outcome codeCfg (mkDs dInlineCallbackCycle)).load = true ∧ (outcome codeCfg (mkDs dInlineCallbackCycle)).hit.isNone = true ∧
     (outcome codeCfg (mkDs dInlineCallbackCycle)).abnormal = ["crash:marshal"] ∧ (outcome codeCfg (mkDs dInlineCallbackCycle)).excl = ["CallbackCycle"] ∧
-    isOk (outcome codeCfg (mkDs dHeaderCycle)).load = true ∧
-    (outcome codeCfg (mkDs dHeaderCycle)).abnormal = ["crash:validate"] ∧ (outcome codeCfg (mkDs dHeaderCycle)).excl = ["HeaderCycle"] ∧
     specAbnormal = [] := by
+  decide +kernel
+
+/-- the code of round 2 (before 3c3716e, 05c5875, 4c7d612) -/
+def cfgRound2 : Cfg := { codeCfg with swallowOnlyEmpty := false, internValueGuard := false, headerStack := false }
+
+set_option maxRecDepth 1000000 in
+/-- what the three repairs of this round removed: on the former witnesses the model of the code before them
+    ends abnormally inside exactly the former class — what `code_cfg_checked` protects against -/
+theorem round2_code_failed_on_them :
+    (outcome cfgRound2 (mkDs dHash)).abnormal = ["post"] ∧ (outcome cfgRound2 (mkDs dHash)).excl = ["Unresolved"] ∧
+    (outcome cfgRound2 (mkDs dSwallow)).abnormal = ["post"] ∧ (outcome cfgRound2 (mkDs dSwallow)).excl = ["Unresolved"] ∧
+    (outcome cfgRound2 (mkDs dRefAndContent)).abnormal = ["post"] ∧ (outcome cfgRound2 (mkDs dRefAndContent)).excl = ["UnwalkedRef"] ∧
+    (outcome cfgRound2 (mkDs dHeaderCycle)).abnormal = ["crash:validate"] ∧ (outcome cfgRound2 (mkDs dHeaderCycle)).excl = ["HeaderCycle"] := by
   decide +kernel
 
 /-- non-vacuity: a document with a recursive schema, a parameter, a response with a header, a link and an
